@@ -1545,15 +1545,15 @@ def clause_upper_bound_agreement(ctx, who="hash"):
                       "the same hash")
     else:
         fn = mod.func("FitProperties.__setitem__")
-        rets = [r for r in walk_no_nested(fn, False)
-                if isinstance(r, ast.Return)]
         found = False
-        for r in rets:
-            for a in conditions_at(r):
-                n = a.node
-                if a.pol and isinstance(n, ast.Compare) and isinstance(
-                        n.ops[0], ast.Eq) and "range_x" in norm(n.left) \
-                        and not isinstance(n.comparators[0], ast.Constant):
+        for n in walk_no_nested(fn, False):
+            for _once in (1,):
+                if isinstance(n, ast.Compare) and len(n.ops) == 1 and \
+                        isinstance(n.ops[0], (ast.Eq, ast.NotEq)) and \
+                        "range_x" in norm(n.left) \
+                        and not isinstance(n.comparators[0], ast.Constant) \
+                        and "value" in norm(n.comparators[0]) and \
+                        "self[key]" not in norm(n.left):
                     found = True
                     ctx.check(kind(norm(n.left)) == kind(used), n,
                               f"don't-care keyed on {norm(n)}; the fit uses "
